@@ -17,7 +17,9 @@ from .tlaval import seq, to_tla
 
 CONES = {"orth": [[1, 0], [0, 1]], "pyobt": [[3, 4], [4, 3]], "pyac": [[-3, 4], [4, -3]], "k3": [[1, 0], [0, 1], [1, 1]],
          "k3b": [[2, -1], [-1, 2], [1, 1]],     # k3b: facets with DIFFERENT alpha (3/5 for the acute pair, 1 for the diagonal facet)
-         "skew": [[2, 1], [-1, 3]]}             # square but NOT symmetric (hyper-volume table only): W and its transpose describe different cones
+         "skew": [[2, 1], [-1, 3]],
+         "wide": [[0, 1], [1, 2]]}              # a wide cone (rays (1,0) and (-2,1)): the all-ones direction is NOT in its dual, so a design
+                                                # can be dominated by one with a SMALLER coordinate total             # square but NOT symmetric (hyper-volume table only): W and its transpose describe different cones
 EPS2 = [(0, 1), (1, 1), (4, 1), (1, 4)]
 INVS = {"gap": ["GapThm", "CovThm", "CovMono", "CovRefl"], "f1": ["F1Range", "F1True", "F1Mono", "F1Perm"], "hv": ["HVThm"]}
 
@@ -203,7 +205,7 @@ def _replay_hv(rows):
 def run(ctx):
     import vopy.utils.evaluate  # noqa: F401
     thorough = ctx.tier == "thorough"
-    cones = [c for c in CONES if c != "skew"]
+    cones = [c for c in CONES if c != "skew"]      # "wide" joins the gap tables; the F1 table keeps its own list in the quick tier
     g = _run(ctx, "gap", 3 if thorough else 2, cones) + ([] if thorough else _run(ctx, "gap", 3, ["pyobt"]))
     rows_g = []
     for cone, st in g:
